@@ -485,6 +485,7 @@ func (cr *c09Run) run() {
 	defer runtime.GOMAXPROCS(old)
 	e := gen.DefaultEnv()
 	cr.st = newStack(scratch, mon.DefaultNIC())
+	cr.st.rec.Sharded()
 	cr.recordHistory = cr.idx%3 == 0
 	cr.dh = &c09DHCP{xid: map[refdec.MAC][4]byte{}, acked: map[refdec.MAC]netip.Addr{}, follow: make(chan []byte, 64)}
 	st := cr.st
@@ -539,11 +540,20 @@ func (cr *c09Run) run() {
 				s.Notify(frame)
 				handled.Add(1)
 			})
-			for _, f := range st.rec.Take() {
-				cr.dh.observe(e, f.Data)
-			}
 		}
 	}()
+	// the wire: a goroutine of its own collects what the stack transmits and plays the DHCP clients
+	wireDone := make(chan struct{})
+	go func() {
+		defer close(wireDone)
+		for !cr.stop.Load() {
+			for _, f := range st.rec.TakeShards() {
+				cr.dh.observe(e, f.Data)
+			}
+			time.Sleep(300 * time.Microsecond)
+		}
+	}()
+	defer func() { <-wireDone }()
 	// feeder
 	feedSeed := r.Int63()
 	wg.Add(1)
